@@ -5,6 +5,8 @@ the Go harness compares it with the implementation's.
 import Mmmbbb.Model.Codec
 import Mmmbbb.Model.FilterSyntax
 import Mmmbbb.Model.Backoff
+import Mmmbbb.Model.Faults
+import Mmmbbb.Model.Push
 namespace Mmmbbb.Pure
 open Mmmbbb.Codec Mmmbbb.Filter
 
@@ -72,11 +74,71 @@ def handleBackoff (fs : Fields) : String :=
   | some n => s!"R nominal={Backoff.nominal (opt "minb") (opt "maxb") n}"
   | none => "ERROR bad backoff line"
 
-def isPureOp (op : String) : Bool := op == "filter" || op == "backoff"
+/-! faults: `faults ops=<op>;<op>;…` with `add~<operation>~<params>~<count>`, `check~<operation>~<params>`,
+`current`; answers `fired:<idx>` / `pass` / `cur:<op>=<count>,…` per op, separated by `;` -/
+
+def parseParams (s : String) : Option Faults.Params := parseMap s
+
+def handleFaults (fs : Fields) : String :=
+  let ops := splitNE ((fget fs "ops").getD "") ";"
+  let rec go (ops : List String) (ds : List Faults.Desc) (acc : List String) : String :=
+    match ops with
+    | [] => "R " ++ ";".intercalate acc.reverse
+    | o :: r =>
+      match o.splitOn "~" with
+      | ["add", opn, ps, cnt] =>
+        match dec opn, parseParams ps, cnt.toInt? with
+        | some opn', some ps', some c => go r (ds ++ [{ op := opn', params := ps', count := c }]) ("ok" :: acc)
+        | _, _, _ => "ERROR bad add"
+      | ["check", opn, ps] =>
+        match dec opn, parseParams ps with
+        | some opn', some ps' =>
+          let (ds', c) := Faults.checkSeq (2 * ds.length + 2) ds { op := opn', params := ps', phase := .start }
+          let a := match c.phase with
+            | .fired i => s!"fired:{i}"
+            | .passed => "pass"
+            | _ => "stuck"
+          go r ds' (a :: acc)
+        | _, _ => "ERROR bad check"
+      | ["current"] =>
+        let cur := (Faults.current ds).map fun d => s!"{enc d.op}={d.count}"
+        go r ds (("cur:" ++ ",".intercalate cur) :: acc)
+      | ["prune"] => go r (Faults.prune ds) ("ok" :: acc)
+      | _ => "ERROR bad faults op"
+  go ops [] []
+
+/-! push: `push codes=<c>,<c>…` (-1 = transport error) → `R a,n,…`;
+`window batches=f3,s2,n1…` → `R <w0>,<w1>,…` (trajectory) -/
+
+def handlePush (fs : Fields) : String :=
+  let codes := splitNE ((fget fs "codes").getD "") ","
+  let outs := codes.map fun c =>
+    match c.toInt? with
+    | some v =>
+      (match Push.classify (if v < 0 then none else some v.toNat) true with
+       | .ack _ => "a" | .nack => "n")
+    | none => "?"
+  "R " ++ ",".intercalate outs
+
+def handleWindow (fs : Fields) : String :=
+  let bs := (splitNE ((fget fs "batches").getD "") ",").filterMap fun b =>
+    match b.toList with
+    | 'f' :: r => (String.ofList r).toNat?.map Push.Batch.fastAcks
+    | 's' :: r => (String.ofList r).toNat?.map Push.Batch.slowAcks
+    | 'n' :: r => (String.ofList r).toNat?.map Push.Batch.nacks
+    | _ => none
+  let traj := bs.foldl (fun (acc : List Int × Int) b => let w := Push.windowStep acc.2 b; (acc.1 ++ [w], w)) ([Push.windowInit], Push.windowInit)
+  "R " ++ ",".intercalate (traj.1.map toString)
+
+def isPureOp (op : String) : Bool :=
+  op == "filter" || op == "backoff" || op == "faults" || op == "push" || op == "window"
 
 def handle (op : String) (fs : Fields) : String :=
   if op == "filter" then handleFilter fs
   else if op == "backoff" then handleBackoff fs
+  else if op == "faults" then handleFaults fs
+  else if op == "push" then handlePush fs
+  else if op == "window" then handleWindow fs
   else "ERROR unknown pure op"
 
 end Mmmbbb.Pure
